@@ -689,6 +689,9 @@ def rule_bounds(repo, col):
     rule = 'AX-BOUNDS'
     q = 'TableValidator._valid_sparse_data'
     f = repo.func(VAL, q)
+    # bodies of newly extracted private helpers are searched as well
+    from .normalize import flat_view
+    f = flat_view(repo.mod(VAL).tree, VAL, f)
     # dimension variables: n_rows, n_cols = table_json['shape']
     dims = {}
     offsets = {}
@@ -985,6 +988,18 @@ def rule_records(repo, col):
         not any(' and ' in a for a in accept) and \
         final and not (isinstance(final[-1].value, ast.Constant) and
                        final[-1].value.value == '')
+    # decided by evaluating the function on one value of every JSON kind
+    from .consteval import ConstEval as _CE, UNKNOWN as _UNK, _FALLTHROUGH
+    ce_ = _CE(repo)
+    verdicts = []
+    for v_ in (None, {}, {'a': 1}, 5, 0, 1.5, True, False, 'x', '', [],
+               [1]):
+        r_ = ce_.run_body(f.body, VAL, {rec: {'metadata': v_}})
+        verdicts.append((v_, r_))
+    if all(r_ is not _UNK and r_ is not _FALLTHROUGH
+           for _, r_ in verdicts):
+        ok = all((r_ == '') == (v_ is None or isinstance(v_, dict))
+                 for v_, r_ in verdicts)
     col.check(bool(ok), rule, VAL, 'TableValidator._valid_metadata',
               'object-or-null', f, "'' only for None or dict; an error "
               'otherwise', 'metadata that is neither null nor an object is '
